@@ -292,8 +292,20 @@ func sectionChooser(rng *vh.Rng, corpus []corpusEntry) {
 			if kind == "removed-not-older" {
 				f.Finding = "F21" // a fixed finding: reported as a violation ("the defect is back")
 			}
-			if !consistent[i] && kind != "removed-not-older" {
-				// class of the fixed finding F43: Size() answered something else than the sum of the chunk sizes the loops read
+			twinOK := false
+			if !consistent[i] {
+				twin := c
+				twin.JSize = 0
+				for _, k := range c.Chunks {
+					twin.JSize += uint64(k.Size)
+				}
+				tn, tr, td, _ := implChooser(twin)
+				tk, _ := specChooser(twin, tn, tr, td)
+				twinOK = tk == ""
+			}
+			if twinOK {
+				// class of the fixed finding F43: the failure exists only because Size() answered something else than the sum
+				// of the chunk sizes the loops read (the same chunks with a consistent answer are handled correctly)
 				f.Finding = "F43"
 				f.Kind = "size-snapshot-" + kind
 				f.What = fmt.Sprintf("Journal.Size() answered %d, the chunk sizes sum to another value: %s", c.JSize, what)
@@ -997,6 +1009,12 @@ func judgeSys(secName string, sec *vh.Section, c sysCase, r sysResult, answers [
 			continue
 		}
 		users := r.Users[k]
+		// failures of the removal rules are reported after the DRYRUN comparison of the same statement: when a repaired
+		// DRYRUN defect is back it is the more specific diagnosis and should be the replay the check names
+		var deferred []vh.SpecFailure
+		failLater := func(kind, what, impl, spec, mdl string, eq bool, finding string) {
+			deferred = append(deferred, vh.SpecFailure{Section: secName, Kind: kind, Input: c, Impl: impl, Spec: spec, Model: mdl, ImplEqModel: eq, Finding: finding, What: what})
+		}
 		// what the real run removed, per partition
 		type removal struct {
 			chunks int
@@ -1080,19 +1098,19 @@ func judgeSys(secName string, sec *vh.Section, c sysCase, r sysResult, answers [
 				if !bySize && !byTime {
 					switch {
 					case phase2:
-						fail("size-clause-global", what+" removed by the MAXDBSIZE pass although the partition is not above MAXSIZE and the chunk is not older than BEFORE", a.layout(), b.layout(), matched, eq, "F32")
-					case st.Before != nil && newest == *st.Before:
-						fail("removed-not-older", what+" removed by BEFORE although its newest event is exactly t", a.layout(), b.layout(), matched, eq, "F21")
+						failLater("size-clause-global", what+" removed by the MAXDBSIZE pass although the partition is not above MAXSIZE and the chunk is not older than BEFORE", a.layout(), b.layout(), matched, eq, "F32")
+					case st.Before != nil && newest == *st.Before && (st.MaxDB == nil || (eq && k2 < n1)):
+						failLater("removed-not-older", what+" removed by BEFORE although its newest event is exactly t", a.layout(), b.layout(), matched, eq, "F21")
 					default:
-						fail("removed-without-rule", what+" removed; neither above MAXSIZE nor older than BEFORE", a.layout(), b.layout(), matched, eq, "")
+						failLater("removed-without-rule", what+" removed; neither above MAXSIZE nor older than BEFORE", a.layout(), b.layout(), matched, eq, "")
 					}
 				}
 				size -= uint64(ch.Size)
 				if !byTime && st.Min != nil && size < *st.Min {
 					if phase2 {
-						fail("below-minsize-global", what+fmt.Sprintf(": the MAXDBSIZE pass leaves %d < MINSIZE", size), a.layout(), b.layout(), matched, eq, "F32")
+						failLater("below-minsize-global", what+fmt.Sprintf(": the MAXDBSIZE pass leaves %d < MINSIZE", size), a.layout(), b.layout(), matched, eq, "F32")
 					} else {
-						fail("below-minsize", what+fmt.Sprintf(": size-driven removal leaves %d < MINSIZE", size), a.layout(), b.layout(), matched, eq, "")
+						failLater("below-minsize", what+fmt.Sprintf(": size-driven removal leaves %d < MINSIZE", size), a.layout(), b.layout(), matched, eq, "")
 					}
 				}
 			}
@@ -1150,6 +1168,9 @@ func judgeSys(secName string, sec *vh.Section, c sysCase, r sysResult, answers [
 			}
 		}
 		dries = nil
+		for _, f := range deferred {
+			res.SpecFail(f)
+		}
 	}
 	key := ""
 	if nontrivial {
